@@ -52,6 +52,7 @@ class RecordDecl:
     mutable: dict = field(default_factory=dict)
     immutable: dict = field(default_factory=dict)
     pure: dict = field(default_factory=dict)
+    obj_attrs: dict = field(default_factory=dict)     # dotted attribute path -> class name of the (stateless) object it denotes
     ctor_kwargs: bool = False                          # constructor takes the immutable fields as keyword arguments
     ctor: dict = field(default_factory=dict)          # initial values of mutable fields for `Cls()`; presence enables the constructor
 
